@@ -222,6 +222,57 @@ Example C06_nonvacuous :
   /\ lim [ex_ev 60 2 6] true (Some 3) 0 = Some 3 /\ lim [ex_ev 70 3 1; ex_ev 71 3 1] false None 0 = Some 2.
 Proof. vm_compute. repeat split. Qed.
 
+(** 6b. Operations that reach a track in the very tick in which it finishes (lemmas: Sched/TransitProofs.v).
+    The finished remove_when_done track leaves the list INSIDE its own turn, so no state that a later turn of the same
+    tick - or any call between ticks - can see holds a track that is finished and to be removed ("zombie"): an invariant
+    of every reachable timeline and of every state between two turns.  Hence a schedule(name=...) issued by a later
+    track's action in the tick in which the track of that name finished finds no such track and creates a new one
+    (C06_named_replace / C06_refused decide by the current list), and a track that a named re-schedule did update is
+    not swept away by anybody else's finishing step: the track schedule() returned is in the timeline. *)
+From Isobar Require Import Sched.TransitProofs.
+
+Theorem C06_no_zombie : forall cfg ops, no_zombie (tracks (run_state cfg tl0 ops)) = true.
+Proof. intros cfg ops. apply run_no_zombie. reflexivity. Qed.
+Print Assumptions C06_no_zombie.
+
+(* ... and between any two turns of one tick: after the turns of ANY prefix of the snapshot (callbacks may do anything) *)
+Theorem C06_no_zombie_between_turns : forall cfg ids tl c, no_zombie (tracks tl) = true ->
+  no_zombie (tracks (fst (fst (phase_tracks cfg tl ids c)))) = true
+  /\ forall id, no_zombie (tracks (fst (fst (tick_one cfg tl id)))) = true.
+Proof. intros cfg ids tl c H. split; [apply phase_tracks_no_zombie; exact H|intros id; apply tick_one_no_zombie; exact H]. Qed.
+Print Assumptions C06_no_zombie_between_turns.
+
+(* the turn in which a remove_when_done track finishes ends with the track out of the list *)
+Theorem C06_finished_turn_leaves : forall cfg tl id st tr, NoDup (map t_id (tracks tl)) -> find_track id (tracks tl) = Some tr ->
+  zombie (track_tick_b cfg tr st) = true -> find_track id (tracks (finish_track cfg tl id st)) = None.
+Proof. exact finished_turn_leaves. Qed.
+
+(* a named re-schedule (from a callback or between ticks) never lands on a finished-and-removable track; the track it updates
+   is listed afterwards, still not finished-and-removable, and survives the finishing step of any OTHER track's turn *)
+Theorem C06_same_tick_reschedule : forall cfg tl s q d count rwd nm tr id' st,
+  no_zombie (tracks tl) = true -> find_named nm (tracks tl) = Some tr -> t_id tr <> id' ->
+  let tl' := fst (exec_op cfg tl (OSchedule s q d count rwd (Some nm) true)) in
+  zombie tr = false
+  /\ (exists tr', find_named nm (tracks tl') = Some tr' /\ t_id tr' = t_id tr /\ zombie tr' = false)
+  /\ (forall t0, find_track (t_id tr) (tracks tl') = Some t0 -> find_track (t_id tr) (tracks (finish_track cfg tl' id' st)) = Some t0).
+Proof. exact named_replace_survives. Qed.
+Print Assumptions C06_same_tick_reschedule.
+
+(* non-vacuity (tau = 1): the phrase (id 0, name 5: two notes of 2 ticks, gate 1/2) finishes on tick 4; the conductor (id 1, placed
+   AFTER it) calls schedule(name 5) on tick 4 - in the tick in which the phrase finished and left.  The call finds no track named 5
+   and creates track 2, which is in the timeline at the end of that tick and plays its two notes on ticks 5 and 7 *)
+Definition zt_cfg : config :=
+  mkConfig 1 [(CbNone, [OSchedule (mkStream [ex_ev 72 2 1; ex_ev 74 2 1] 0 false) None None None true (Some 5) true])] 0 0 false false None 8.
+Definition zt_ops : list op :=
+  [OSchedule (mkStream [ex_ev 60 2 1; ex_ev 62 2 1] 0 false) None None None true (Some 5) true;
+   OSchedule (mkStream [REvent (mkEvent 4 false (KAction 0)); REvent (mkEvent 4 true (KAction 0))] 0 false) None None None true None true]
+  ++ repeat OTick 10.
+Example C06_same_tick_nonvacuous :
+  map ons (run zt_cfg tl0 zt_ops) = [ []; []; [60]; []; [62]; []; []; [72]; []; [74]; []; [] ]
+  /\ map snd (run zt_cfg tl0 zt_ops)
+     = ([ [0]; [0;1]; [0;1]; [0;1]; [0;1]; [0;1]; [1;2]; [1;2]; [1;2]; [1;2]; [2]; [] ])%nat.
+Proof. vm_compute. repeat split. Qed.
+
 (** 7. Interpolating tracks (control tracks scheduled with interpolate = linear / cosine; model: Sched/Interp.v, the
     lifecycle around it: Sched/InterpLife.v, lemmas Sched/InterpLifeProofs.v).  The non-interpolating statements above
     (C06_muted) speak about Model.perform_event; the interpolating branch of Track.tick reaches perform_event from two
